@@ -409,10 +409,8 @@ func (r *Run) runPath(w *worker, prefix []bool) (res *PathResult, newPrefixes []
 				res.Outcome = "panic"
 				res.Msg = "uncaught panic in harness: " + truncStr(toString(x.v), 300) + " @ " + res.lastPanicSite
 			case runtime.Error:
-				buf := make([]byte, 6000)
-				n := runtime.Stack(buf, false)
 				res.Outcome = "panic"
-				res.Msg = "uncaught runtime error: " + x.Error() + " @ " + res.lastPanicSite + "\n" + string(buf[:n])
+				res.Msg = "uncaught runtime error: " + x.Error() + " @ " + res.lastPanicSite
 			default:
 				res.Outcome = "unsupported"
 				res.Msg = fmt.Sprintf("engine panic: %v", p)
